@@ -3,6 +3,9 @@ package main
 import (
 	"errors"
 	"fmt"
+	"os"
+	"os/exec"
+	"runtime/debug"
 	"strings"
 	"time"
 
@@ -232,7 +235,30 @@ func failOne(c *Ctx, src string, class, wrap string, host bool, noOpt bool, args
 	return l + "\t#" + codec.Hex([]byte(src)), impl, tr.steps
 }
 
+// cyclicWitness: String() of a container that contains itself recurses until the Go runtime
+// aborts the process (fatal error: stack overflow) — not a panic, recover() cannot intercept it.
+// Run in a child process (this binary re-executed with VMFAIL_CHILD=cyclic).
+const cyclicWitness = `m := {}; m.a = m; try { throw m } catch e { return 1 }; return 2`
+
+func cyclicChild() {
+	debug.SetMaxStack(64 << 20) // fail fast instead of growing the stack to 1 GB
+	bc, err := ugo.Compile([]byte(cyclicWitness), ugo.CompilerOptions{NoOptimize: true})
+	if err != nil {
+		os.Exit(0)
+	}
+	defer func() {
+		if r := recover(); r != nil {
+			os.Exit(3) // an ordinary panic escaped
+		}
+	}()
+	ugo.NewVM(bc).SetRecover(true).Run(nil)
+	os.Exit(0)
+}
+
 func init() {
+	if os.Getenv("VMFAIL_CHILD") == "cyclic" {
+		cyclicChild()
+	}
 	var err error
 	// (no optimizer: it would run the VM under test at compile time)
 	knownBc, err = ugo.Compile([]byte(knownScript), ugo.CompilerOptions{NoOptimize: true})
@@ -280,6 +306,18 @@ func init() {
 		},
 		Run: func(c *Ctx) {
 			c.Rule("scripts built to fail (÷0 and %0 via variables, negative shifts, bad indexes/slices, calls of non-callables, wrong argument counts, bad spreads, throw of arbitrary values, not-iterable, frame-limit recursion 1019..1025 and unbounded, recursion with many locals and nested literals around the 2048-slot limit, failing self tail calls; each placed bare / in try / in catch / in finally / in a callee / unwinding through finally frames / in a loop; panicking Go callbacks: Function.Value, ValueEx, Call, CallName, nil results, Invoker) compiled by the real compiler, run with SetRecover(true) under recover(): oracle = no escaping panic, same VM re-runs the same bytecode identically and then runs a known script with the known result; plus lock-step comparison with the Lean VM model (outcome, instruction count, trace hash, globals) where the model supports the program; distinct = (class, placement, outcome class)")
+			// the known open finding, replayed in a child process
+			if exe, err := os.Executable(); err == nil {
+				cmd := exec.Command(exe)
+				cmd.Env = append(os.Environ(), "VMFAIL_CHILD=cyclic")
+				if err := cmd.Run(); err != nil {
+					c.Violation(PropViolation{Property: "C06", Sig: "C06:fatal-stack-overflow:cyclic-container",
+						What:  "String() of a container that contains itself never returns: the Go runtime aborts the host process with `fatal error: stack overflow` (not a panic, recover() cannot intercept it) although SetRecover(true) is on: " + err.Error(),
+						Input: cyclicWitness})
+				} else {
+					c.Count("cyclic-witness-survived")
+				}
+			}
 			n := 2000 * c.Scale
 			pool := argPool()
 			for i := 0; i < n; i++ {
@@ -288,6 +326,7 @@ func init() {
 				if r.Intn(5) == 0 {
 					o := gen.DefaultProgOpts()
 					o.Floats = false
+					o.NoCycles = true
 					fc = gen.FailCase{Src: gen.Program(r, o), Class: "random-program", Wrap: "random"}
 				} else {
 					fc = gen.FailProgram(r)
